@@ -18,7 +18,7 @@
    prefixes.  The in-place rewrites (SetRef, index, config, shallow) are NOT
    repaired: refuted below, with the strongest partial statement. *)
 From Coq Require Import List NArith ZArith Bool String.
-From GoGit Require Import Base.Out Gen.C22 Model.Gc Model.Crash Spec.RepoOk Proofs.CrashFacts Proofs.C21.
+From GoGit Require Import Base.Out Gen.C22 Model.Gc Model.Crash Spec.RepoOk Proofs.C22 Proofs.CrashFacts Proofs.C21.
 Import ListNotations.
 Local Open Scope N_scope.
 
@@ -66,6 +66,20 @@ Theorem C21_repack_safe : forall g fs op lim,
   repo_ok g fs -> crash_safe g fs (op_repack g fs op lim).
 Proof. exact repack_safe. Qed.
 Print Assumptions C21_repack_safe.
+
+(* a worktree commit (new trees bottom-up, commit object, then the branch): the
+   object writes are safe whatever they are ... *)
+Theorem C21_commit_objects_safe : forall g fs os, repo_ok g fs -> crash_safe g fs (op_setobjs 0 fs os).
+Proof. exact commit_objects_safe. Qed.
+Print Assumptions C21_commit_objects_safe.
+
+(* ... and the only bad crash states of the whole commit are those inside the
+   final in-place rewrite of the reference file (C21_setref_refuted) *)
+Theorem C21_commit_partial : forall g fs os n v s,
+  repo_ok g fs -> repo_ok g (run (op_commit fs os n v) fs) ->
+  In s (crash_states (op_commit fs os n v) fs) -> whole_at s (refpath n) = true -> repo_ok g s.
+Proof. exact commit_partial. Qed.
+Print Assumptions C21_commit_partial.
 
 (* operations compose: the crash states of a sequence are those of its parts *)
 Theorem C21_sequence : forall g fs a b,
